@@ -1,11 +1,19 @@
 """C02 — the construct container keeps referential integrity over any history.
 
-One stream, C02.hist: a history of public API calls on a cfdm.Field.  After every
-operation the harness abstracts the live object (through public accessors only)
-into the model's state and records ok/rejected; the Lean model replays the same
-operation list.  The oracle evaluates the invariant of the property directly on
-the live object after every operation (and calls repr/str/dump).
+One stream, C02.hist: a history of public API calls on a cfdm.Field (and on its live
+domain view f.domain).  After every operation the harness abstracts the live object
+(through public accessors only) into the model's state and records ok/rejected; the
+Lean model (the container with the proposed patches `P`, and as coded `O`) replays the
+same operation list from the same abstract start state.  Identifiers that cfdm generated
+are referred to by creation order (`#i` = key returned by operation i), so the operation
+list and the compared states do not depend on how new identifiers are spelled.
+
+The oracle evaluates the invariant of the property directly on the live object after
+every operation, accepted or rejected (and calls repr/str/dump of the field and of its
+domain).
 """
+import re
+
 import numpy as np
 
 from .. import fw
@@ -13,20 +21,40 @@ from ..fw import Case
 
 REQUIRED = [
     "C02_inv_init",
-    "C02_inv_step",
-    "C02_inv_reachable",
+    "C02_inv_step_partial",
+    "C02_inv_reachable_partial",
+    "C02_inv_axes",
+    "C02_inv_describe",
+    "C02_set_rejected_unchanged",
+    "C02_old_new_identifier_counterexample",
+    "C02_old_set_construct_keeps_axes_counterexample",
+    "C02_old_domain_view_delete_counterexample",
+    "C02_old_set_data_axes_counterexample",
+    "C02_old_insert_dimension_counterexample",
+    "C02_set_data_rejected_unchanged",
+    "C02_axis_resize_breaks_inv",
+    "C02_dangling_cell_method_breaks_inv",
+    "C02_dangling_reference_breaks_inv",
+    "C02_replace_unchecked_breaks_inv",
 ]
-BUDGET = {"quick": 400, "thorough": 16000}
+BUDGET = {"quick": 2400, "thorough": 30000}
+QUICK_JOBS = 4
 RULE = (
-    "random histories (quick: 4-12 ops, thorough: 4-40 ops) of public calls on cfdm.Field starting from an empty field or "
-    "example fields 0-7: set_construct (every type; new / same-type key / other-type key; valid, wrong-shape, missing or "
-    "unknown axes), del_construct (existing, in-use, unknown; by key and through the domain view), set_data / del_data / "
-    "set_data_axes / del_data_axes, copy, subspace, squeeze, transpose, insert_dimension, convert; ~25% of calls are ones the "
-    "API must reject. non-trivial = history with >= 3 accepted mutating ops; distinct = distinct op lists"
+    "random histories (quick: 4-14 ops, thorough: 4-40 ops) of public calls on cfdm.Field / f.domain starting from an empty "
+    "field, example fields 0-3,5-7 or a random valid field: set_construct (every type except topologies; new / same-type key / "
+    "other-type key / key that collides with a later automatic identifier; valid, wrong-shape, missing or unknown axes; through "
+    "the field and through the domain view), del_construct (existing, in use, unknown; both routes), set_data / del_data / "
+    "set_data_axes / del_data_axes (field and per construct), constructs.replace, copy / Field(source=), subspace, squeeze, "
+    "transpose, insert_dimension (with constructs / inplace), convert; ~25% of calls are ones the API must reject. "
+    "non-trivial = history with >= 3 accepted mutating ops; distinct = distinct (start, op list)"
 )
 ASSUMPTIONS = [
-    "constructs are abstracted to (type, shape, axes, references); their data values and properties play no role in the invariant",
+    "constructs are abstracted to (type, data/bounds/interior-ring shapes, axis size, named axes/constructs); values and properties play no role in the invariant",
+    "a construct handed to set_construct is itself consistent (bounds / interior ring agree with its data on the leading dimensions, which cfdm's own set_bounds enforces)",
     "direct mutation of a construct object fetched from the field (e.g. DomainAxis.set_size on the contained object) is not a container operation and is outside the histories",
+    "construct identifiers have the standard form <letters><number>; domain topology / cell connectivity constructs are not generated",
+    "inplace=True is combined with constructs=True in neither transpose nor insert_dimension (a failure half-way through the loop over constructs depends on dictionary order)",
+    "a field that has data but no data axes (or a construct without data axes) is a partially built state of ab-initio creation, not a violation",
 ]
 
 _cfdm = None
@@ -40,253 +68,522 @@ def cfdm():
     return _cfdm
 
 
-ARRAY_TYPES = ["dimension_coordinate", "auxiliary_coordinate", "cell_measure", "field_ancillary", "domain_ancillary"]
-SHORT = {"dimension_coordinate": "dim", "auxiliary_coordinate": "aux", "cell_measure": "msr", "field_ancillary": "fan",
-         "domain_ancillary": "dan", "domain_axis": "axis", "cell_method": "cm", "coordinate_reference": "ref",
-         "domain_topology": "top", "cell_connectivity": "con"}
+LONG = {"axis": "domain_axis", "dim": "dimension_coordinate", "aux": "auxiliary_coordinate", "msr": "cell_measure",
+        "fan": "field_ancillary", "dan": "domain_ancillary", "top": "domain_topology", "con": "cell_connectivity",
+        "ref": "coordinate_reference", "cm": "cell_method"}
+SHORT = {v: k for k, v in LONG.items()}
+BASE = {k: v.replace("_", "") for k, v in LONG.items()}
+ARRAY = ("dim", "aux", "msr", "fan", "dan", "top", "con")
+KEYRE = re.compile(r"^([a-z_]*[a-z_])(0|[1-9][0-9]*)$")
+
+
+# ------------------------------------------------------------------ text forms shared with the Lean driver
+def sh_shape(s):
+    if s is None:
+        return "_"
+    return "x".join(str(n) for n in s) or "s"
+
+
+def sh_key(ret, k):
+    for i in range(len(ret) - 1, -1, -1):
+        if ret[i] == k:
+            return f"#{i}"
+    return k
+
+
+def sh_keys(ret, l):
+    return "+".join(sh_key(ret, k) for k in l) or "n"
+
+
+def sh_optkeys(ret, l):
+    return "_" if l is None else sh_keys(ret, l)
+
+
+def cm_tok(ret, a):
+    return sh_key(ret, a) if KEYRE.match(a) else "~" + a
+
+
+def sh_con(ret, t, k, c, sort=True):
+    """c = dict(data, bounds, geom, ring, size, cmaxes, coords, ancils)"""
+    srt = sorted if sort else list
+    cm = "+".join(srt(cm_tok(ret, a) for a in c["cmaxes"])) or "n"
+    co = "+".join(srt(sh_key(ret, a) for a in c["coords"])) or "n"
+    an = "+".join(srt("~" if a is None else sh_key(ret, a) for a in c["ancils"])) or "n"
+    return "/".join([t, "-" if k is None else sh_key(ret, k), sh_shape(c["data"]), sh_shape(c["bounds"]), "1" if c["geom"] else "0",
+                     sh_shape(c["ring"]), "_" if c["size"] is None else str(c["size"]), cm, co, an])
+
+
+def blank(**kw):
+    c = dict(data=None, bounds=None, geom=False, ring=None, size=None, cmaxes=[], coords=[], ancils=[])
+    c.update(kw)
+    return c
+
+
+def sh_state(ret, st, sort=True):
+    srt = sorted if sort else list
+    return "|".join([
+        "C[" + ",".join(srt(sh_con(ret, t, k, c, sort) for (t, k), c in st["cons"].items())) + "]",
+        "T[" + ",".join(srt(f"{sh_key(ret, k)}:{t}" for k, t in st["types"].items())) + "]",
+        "X[" + ",".join(srt(f"{sh_key(ret, k)}:{sh_keys(ret, l)}" for k, l in st["axes"].items())) + "]",
+        "D" + sh_shape(st["data"]),
+        "A" + sh_optkeys(ret, st["daxes"]),
+    ])
 
 
 # ------------------------------------------------------------------ abstraction of the live object
 def abstract(f):
-    """(axes, constructs, data, cell methods, refs) through public accessors."""
-    C = cfdm()
-    axes = {k: v.get_size(None) for k, v in f.domain_axes(todict=True).items()}
+    """The model's state, read through public accessors only."""
     cons = {}
-    da = f.constructs.data_axes()
-    for t in ARRAY_TYPES + ["domain_topology", "cell_connectivity"]:
-        for k, c in f.constructs.filter_by_type(t, todict=True).items():
-            shp = list(c.shape) if c.has_data() else None
-            if shp is None and getattr(c, "has_bounds", lambda: False)() and c.bounds.has_data():
-                shp = list(c.shape)
-            cons[k] = (SHORT[t], shp, list(da[k]) if k in da else None)
-    data = (list(f.shape) if f.has_data() else None, list(f.get_data_axes(default=())) if f.get_data_axes(default=None) is not None else None)
-    cms = {k: list(c.get_axes(())) for k, c in f.cell_methods(todict=True).items()}
-    refs = {}
-    for k, r in f.coordinate_references(todict=True).items():
-        refs[k] = (sorted(r.coordinates()), sorted(v for v in r.coordinate_conversion.domain_ancillaries().values() if v is not None))
-    return axes, cons, data, cms, refs
-
-
-def show_state(st):
-    axes, cons, data, cms, refs = st
-    a = ",".join(f"{k}:{'_' if v is None else v}" for k, v in sorted(axes.items()))
-    c = ",".join(f"{k}:{t}:{'_' if s is None else 'x'.join(map(str, s)) or 's'}:{'_' if ax is None else '+'.join(ax) or 'n'}" for k, (t, s, ax) in sorted(cons.items()))
-    d = ("_" if data[0] is None else ("x".join(map(str, data[0])) or "s")) + ":" + ("_" if data[1] is None else ("+".join(data[1]) or "n"))
-    m = ",".join(f"{k}:{'+'.join(v) or 'n'}" for k, v in sorted(cms.items()))
-    r = ",".join(f"{k}:{'+'.join(co) or 'n'}:{'+'.join(an) or 'n'}" for k, (co, an) in sorted(refs.items()))
-    return f"A[{a}] C[{c}] D[{d}] M[{m}] R[{r}]"
-
-
-def invariant(f):
-    """The property's invariant, evaluated on the live object. Returns None or a description."""
-    C = cfdm()
-    try:
-        types = {}
-        for t in ARRAY_TYPES + ["domain_topology", "cell_connectivity", "domain_axis", "cell_method", "coordinate_reference"]:
-            for k in f.constructs.filter_by_type(t, todict=True):
-                if k in types:
-                    return f"key {k} held under two construct types ({types[k]}, {t})"
-                types[k] = t
-                if f.constructs.construct_type(k) != t:
-                    return f"construct_type({k}) = {f.constructs.construct_type(k)} but it is stored as {t}"
-        if set(types) != set(f.constructs.todict()):
-            return "constructs.todict() keys differ from the per-type dictionaries"
-        axes = {k: v.get_size(None) for k, v in f.domain_axes(todict=True).items()}
-        da = f.constructs.data_axes()
-        for k, ax in da.items():
-            if k not in types:
-                return f"data axes recorded for non-existent construct {k}"
-            for a in ax:
-                if a not in axes:
-                    return f"construct {k} spans non-existent domain axis {a}"
-            c = f.constructs[k]
-            if c.has_data():
-                if tuple(c.shape) != tuple(axes[a] for a in ax):
-                    return f"construct {k} shape {c.shape} != sizes of its axes {[axes[a] for a in ax]}"
-            if getattr(c, "has_bounds", lambda: False)() and c.bounds.has_data() and c.has_data():
-                if tuple(c.bounds.shape[: c.ndim]) != tuple(c.shape):
-                    return f"bounds of {k} disagree with its data on the leading dimensions"
-        fda = f.get_data_axes(default=None)
-        if f.has_data():
-            if fda is None:
-                if f.ndim:
-                    return "field has data but no data axes"
+    for t, long in LONG.items():
+        for k, c in f.constructs.filter_by_type(long, todict=True).items():
+            if t == "axis":
+                cons[(t, k)] = blank(size=c.get_size(None))
+            elif t == "cm":
+                cons[(t, k)] = blank(cmaxes=list(c.get_axes(())))
+            elif t == "ref":
+                cons[(t, k)] = blank(coords=sorted(c.coordinates()),
+                                     ancils=list(c.coordinate_conversion.domain_ancillaries().values()))
             else:
-                for a in fda:
-                    if a not in axes:
-                        return f"field data spans non-existent domain axis {a}"
-                if tuple(f.shape) != tuple(axes[a] for a in fda):
-                    return f"field data shape {f.shape} != sizes of its axes"
-        elif fda is not None:
-            for a in fda:
-                if a not in axes:
-                    return f"field data axes name non-existent domain axis {a}"
-        for k, cm in f.cell_methods(todict=True).items():
-            for a in cm.get_axes(()):
-                if a.startswith("domainaxis") and a not in axes:
-                    return f"cell method {k} names non-existent axis {a}"
-        for k, r in f.coordinate_references(todict=True).items():
-            for co in r.coordinates():
-                if co not in types or types[co] not in ("dimension_coordinate", "auxiliary_coordinate"):
-                    return f"coordinate reference {k} names non-existent coordinate {co}"
-            for term, v in r.coordinate_conversion.domain_ancillaries().items():
-                if v is not None and types.get(v) != "domain_ancillary":
-                    return f"coordinate reference {k} term {term} names non-existent domain ancillary {v}"
-        dom = f.domain
-        dk = set(dom.constructs.todict())
-        fk = {k for k, t in types.items() if t not in ("cell_method", "field_ancillary")}
-        if dk != fk:
-            return f"domain view sees {sorted(dk ^ fk)} differently from the field"
-    except Exception as e:
-        return "inspecting the constructs raised " + repr(e)[:150]
-    for name, fn in (("repr", lambda: repr(f)), ("str", lambda: str(f)), ("dump", lambda: f.dump(display=False))):
-        try:
-            fn()
-        except Exception as e:
-            return f"{name}() raised {type(e).__name__}: {str(e)[:100]}"
+                d = tuple(c.data.shape) if c.has_data() else None
+                b = r = None
+                g = False
+                if hasattr(c, "has_bounds") and c.has_bounds() and c.bounds.has_data():
+                    b = tuple(c.bounds.data.shape)
+                if hasattr(c, "has_geometry"):
+                    g = bool(c.has_geometry())
+                if hasattr(c, "has_interior_ring") and c.has_interior_ring() and c.interior_ring.has_data():
+                    r = tuple(c.interior_ring.data.shape)
+                cons[(t, k)] = blank(data=d, bounds=b, geom=g, ring=r)
+    types = {k: SHORT[t] for k, t in f.constructs.construct_types().items()}
+    axes = {k: list(v) for k, v in f.constructs.data_axes().items()}
+    data = tuple(f.data.shape) if f.has_data() else None
+    da = f.get_data_axes(default=None)
+    return dict(cons=cons, types=types, axes=axes, data=data, daxes=None if da is None else list(da))
+
+
+def con_shape(t, c):
+    """construct.shape as cfdm defines it (None: no shape)"""
+    if t not in ARRAY:
+        return None
+    if t in ("top", "con"):
+        return None if c["data"] is None else tuple(c["data"][:1])
+    if c["data"] is not None:
+        return tuple(c["data"])
+    if c["bounds"] is not None:
+        b = c["bounds"]
+        return tuple(b[: max(0, len(b) - (2 if c["geom"] else 1))])
     return None
 
 
-# ------------------------------------------------------------------ operations
-def mk_construct(t, shape):
+def invariant(f):
+    """The property's invariant, evaluated on the live object.  Returns None or a description."""
+    try:
+        types = {}
+        objs = {}
+        for t, long in LONG.items():
+            for k, c in f.constructs.filter_by_type(long, todict=True).items():
+                if k in types:
+                    return f"key {k} held under two construct types ({types[k]}, {t})"
+                types[k] = t
+                objs[k] = c
+                if f.constructs.construct_type(k) != long:
+                    return f"construct_type({k}) = {f.constructs.construct_type(k)} but it is stored as {long}"
+                if c.construct_type != long:
+                    return f"{k} is stored as {long} but is a {c.construct_type}"
+        reg = f.constructs.construct_types()
+        if set(reg) != set(types):
+            return f"registered keys differ from the stored constructs: {sorted(set(reg) ^ set(types))}"
+        if set(types) != set(f.constructs.todict()):
+            return "constructs.todict() keys differ from the per-type dictionaries"
+        sizes = {k: objs[k].get_size(None) for k, t in types.items() if t == "axis"}
+        for k, c in objs.items():
+            t = types[k]
+            if t == "dim" and c.has_data() and c.data.ndim != 1:
+                return f"dimension coordinate {k} has {c.data.ndim}-d data"
+            if t in ARRAY and t not in ("top", "con") and c.has_data():
+                nd = c.data.ndim
+                if hasattr(c, "has_bounds") and c.has_bounds() and c.bounds.has_data():
+                    if tuple(c.bounds.data.shape[:nd]) != tuple(c.data.shape):
+                        return f"bounds of {k} disagree with its data on the leading dimensions"
+                if hasattr(c, "has_interior_ring") and c.has_interior_ring() and c.interior_ring.has_data():
+                    if tuple(c.interior_ring.data.shape[:nd]) != tuple(c.data.shape):
+                        return f"interior ring of {k} disagrees with its data on the leading dimensions"
+        for k, ax in f.constructs.data_axes().items():
+            if k not in types:
+                return f"data axes recorded for non-existent construct {k}"
+            for a in ax:
+                if a not in sizes:
+                    return f"construct {k} spans non-existent domain axis {a}"
+            c = objs[k]
+            want = tuple(sizes[a] for a in ax)
+            parts = []
+            if types[k] in ARRAY:
+                if c.has_data():
+                    parts.append(("data", tuple(c.data.shape)[:1] if types[k] in ("top", "con") else tuple(c.data.shape)))
+                if hasattr(c, "has_bounds") and c.has_bounds() and c.bounds.has_data():
+                    b = tuple(c.bounds.data.shape)
+                    if not c.has_data():
+                        b = b[: max(0, len(b) - (2 if c.has_geometry() else 1))]
+                        parts.append(("bounds", b))
+                    else:
+                        parts.append(("bounds", b[: len(ax)]))
+                if hasattr(c, "has_interior_ring") and c.has_interior_ring() and c.interior_ring.has_data() and parts:
+                    parts.append(("interior ring", tuple(c.interior_ring.data.shape)[: len(ax)]))
+            for name, shp in parts:
+                if shp != want:
+                    return f"construct {k} {name} shape {shp} != sizes of its axes {want}"
+        fda = f.get_data_axes(default=None)
+        if fda is not None:
+            for a in fda:
+                if a not in sizes:
+                    return f"field data axes name non-existent domain axis {a}"
+            if f.has_data() and tuple(f.data.shape) != tuple(sizes[a] for a in fda):
+                return f"field data shape {tuple(f.data.shape)} != sizes of its axes {tuple(sizes[a] for a in fda)}"
+        for k, t in types.items():
+            if t == "cm":
+                for a in objs[k].get_axes(()):
+                    # an axis given as a construct identifier (<letters><number>) is a reference; free names are not
+                    if KEYRE.match(a) and a not in sizes:
+                        return f"cell method {k} names non-existent axis {a}"
+            if t == "ref":
+                r = objs[k]
+                for co in r.coordinates():
+                    if types.get(co) not in ("dim", "aux"):
+                        return f"coordinate reference {k} names non-existent coordinate {co}"
+                for term, v in r.coordinate_conversion.domain_ancillaries().items():
+                    if v is not None and types.get(v) != "dan":
+                        return f"coordinate reference {k} names non-existent domain ancillary {v}"
+        dom = f.domain
+        dk = set(dom.constructs.todict())
+        fk = {k for k, t in types.items() if t not in ("cm", "fan")}
+        if dk != fk:
+            return f"domain view sees {sorted(dk ^ fk)} differently from the field"
+        for k in fk:
+            if dom.constructs.get(k) is not f.constructs.get(k):
+                return f"domain view holds another object for {k}"
+        dax, fax = dom.constructs.data_axes(), f.constructs.data_axes()
+        if any(dax.get(k) != fax.get(k) for k in fk):
+            return "domain view sees other data axes than the field"
+    except Exception as e:
+        return "inspecting the constructs raised " + repr(e)[:150]
+    for name, fn in (("repr", lambda: repr(f)), ("str", lambda: str(f)), ("dump", lambda: f.dump(display=False)),
+                     ("repr(domain)", lambda: repr(f.domain)), ("str(domain)", lambda: str(f.domain)),
+                     ("dump(domain)", lambda: f.domain.dump(display=False))):
+        try:
+            fn()
+        except Exception as e:
+            return f"{name} raised {type(e).__name__}: {str(e)[:100]}"
+    return None
+
+
+# ------------------------------------------------------------------ operations on the live object
+def mk_construct(t, c):
     C = cfdm()
+    if t == "axis":
+        return C.DomainAxis(c["size"]) if c["size"] is not None else C.DomainAxis()
+    if t == "cm":
+        return C.CellMethod(axes=list(c["cmaxes"]), method="mean")
+    if t == "ref":
+        return C.CoordinateReference(
+            coordinates=list(c["coords"]),
+            coordinate_conversion=C.CoordinateConversion(domain_ancillaries={f"t{i}": v for i, v in enumerate(c["ancils"])}))
     cls = {"dim": C.DimensionCoordinate, "aux": C.AuxiliaryCoordinate, "msr": C.CellMeasure, "fan": C.FieldAncillary,
            "dan": C.DomainAncillary}[t]
-    c = cls()
-    if shape is not None:
-        c.set_data(C.Data(np.zeros(shape)))
+    x = cls()
     if t == "msr":
-        c.set_measure("area")
-    return c
+        x.set_measure("area")
+    if c["data"] is not None:
+        x.set_data(C.Data(np.zeros(c["data"])))
+    if c["bounds"] is not None:
+        x.set_bounds(C.Bounds(data=C.Data(np.zeros(c["bounds"]))))
+    if c["geom"]:
+        x.set_geometry("polygon")
+    if c["ring"] is not None:
+        x.set_interior_ring(C.InteriorRing(data=C.Data(np.zeros(c["ring"], dtype=int))))
+    return x
 
 
 def apply_op(f, op):
-    """Apply one abstract op to the live field. Returns (f', 'ok'|'rejected', returned key or None)."""
+    """Apply one op (literal keys) to the live field.  Returns (f', 'ok'|'rej', returned key or None, exception name)."""
     C = cfdm()
     kind = op[0]
     try:
-        if kind == "setc":  # ("setc", type, shape|None, key|None, axes|None)
-            _, t, shape, key, axes = op
-            if t == "axis":
-                c = C.DomainAxis(shape)
-            elif t == "cm":
-                c = C.CellMethod(axes=list(axes or []), method="mean")
-                axes = None
-            elif t == "ref":
-                c = C.CoordinateReference(coordinates=list(shape[0]),
-                                          coordinate_conversion=C.CoordinateConversion(domain_ancillaries={f"t{i}": v for i, v in enumerate(shape[1])}))
-            else:
-                c = mk_construct(t, shape)
-            k = f.set_construct(c, key=key, axes=axes)
-            return f, "ok", k
+        if kind == "setc":  # ("setc", via, t, con, key|None, axes|None)
+            _, via, t, c, key, axes = op
+            tgt = f if via == "f" else f.domain
+            k = tgt.set_construct(mk_construct(t, c), key=key, axes=axes)
+            return f, "ok", k, None
         if kind == "delc":
-            f.del_construct(op[1])
-            return f, "ok", None
-        if kind == "ddelc":  # through the domain view
-            f.domain.del_construct(op[1])
-            return f, "ok", None
-        if kind == "dsetc":
-            _, t, shape, key, axes = op
-            c = C.DomainAxis(shape) if t == "axis" else mk_construct(t, shape)
-            k = f.domain.set_construct(c, key=key, axes=axes)
-            return f, "ok", k
-        if kind == "setd":  # ("setd", shape, axes|None)
+            (f if op[1] == "f" else f.domain).del_construct(op[2])
+            return f, "ok", None, None
+        if kind == "setd":
             f.set_data(C.Data(np.zeros(op[1])), axes=op[2])
-            return f, "ok", None
+            return f, "ok", None, None
         if kind == "deld":
             f.del_data()
-            return f, "ok", None
-        if kind == "setda":  # ("setda", axes, key|None)
-            f.set_data_axes(op[1], key=op[2])
-            return f, "ok", None
+            return f, "ok", None, None
+        if kind == "setda":
+            f.set_data_axes(op[1])
+            return f, "ok", None, None
+        if kind == "setdak":
+            (f if op[1] == "f" else f.domain).set_data_axes(op[2], key=op[3])
+            return f, "ok", None, None
         if kind == "delda":
-            f.del_data_axes(op[1])
-            return f, "ok", None
+            f.del_data_axes()
+            return f, "ok", None, None
+        if kind == "deldak":
+            (f if op[1] == "f" else f.domain).del_data_axes(op[2])
+            return f, "ok", None, None
+        if kind == "replace":  # ("replace", key, t, con, axes)
+            f.constructs.replace(op[1], mk_construct(op[2], op[3]), axes=op[4])
+            return f, "ok", None, None
         if kind == "copy":
-            return f.copy(), "ok", None
-        if kind == "sub":  # ("sub", [per-axis (start, stop)])
-            return f[tuple(slice(a, b) for a, b in op[1])], "ok", None
+            return (f.copy() if op[1] == 0 else type(f)(source=f)), "ok", None, None
+        if kind == "sub":
+            return f[tuple(slice(a, b) for a, b in op[1])], "ok", None, None
         if kind == "squeeze":
-            return f.squeeze(op[1]), "ok", None
+            g = f.squeeze(op[1], inplace=op[2])
+            return (f if op[2] else g), "ok", None, None
         if kind == "transpose":
-            return f.transpose(op[1], constructs=op[2]), "ok", None
+            g = f.transpose(op[1], constructs=op[2], inplace=op[3])
+            return (f if op[3] else g), "ok", None, None
         if kind == "insdim":
-            return f.insert_dimension(op[1], position=op[2], constructs=op[3]), "ok", None
+            g = f.insert_dimension(op[1], position=op[2], constructs=op[3], inplace=op[4])
+            return (f if op[4] else g), "ok", None, None
         if kind == "convert":
-            return f.convert(op[1], full_domain=op[2]), "ok", None
+            return f.convert(op[1], full_domain=op[2]), "ok", None, None
     except Exception as e:
-        return f, "rejected:" + fw.exc_enum(e), None
+        return f, "rej", None, fw.exc_enum(e)
     raise fw.HarnessError("unknown op " + repr(op))
 
 
+# ------------------------------------------------------------------ op text  (mirrors Cfdm/Driver/C02.lean)
+def enc_op(op, ret):
+    k = op[0]
+    if k == "setc":
+        _, via, t, c, key, axes = op
+        return ":".join(["setc", via, sh_con(ret, t, None, c, sort=False), "_" if key is None else sh_key(ret, key), sh_optkeys(ret, axes)])
+    if k == "delc":
+        return f"delc:{op[1]}:{sh_key(ret, op[2])}"
+    if k == "setd":
+        return f"setd:{sh_shape(op[1])}:{sh_optkeys(ret, op[2])}"
+    if k in ("deld", "delda"):
+        return k
+    if k == "setda":
+        return f"setda:{sh_keys(ret, op[1])}"
+    if k == "setdak":
+        return f"setdak:{op[1]}:{sh_keys(ret, op[2])}:{sh_key(ret, op[3])}"
+    if k == "deldak":
+        return f"deldak:{op[1]}:{sh_key(ret, op[2])}"
+    if k == "replace":
+        return ":".join(["replace", sh_key(ret, op[1]), sh_con(ret, op[2], None, op[3], sort=False), sh_optkeys(ret, op[4])])
+    if k == "copy":
+        return "copy"
+    if k == "sub":
+        return "sub:" + ("+".join(f"{a}-{b}" for a, b in op[1]) or "n")
+    idx = lambda l: "_" if l is None else ("+".join(str(i) for i in l) or "n")
+    b = lambda x: "1" if x else "0"
+    if k == "squeeze":
+        return f"squeeze:{idx(op[1])}:{b(op[2])}"
+    if k == "transpose":
+        return f"transpose:{idx(op[1])}:{b(op[2])}:{b(op[3])}"
+    if k == "insdim":
+        return f"insdim:{'_' if op[1] is None else sh_key(ret, op[1])}:{op[2]}:{b(op[3])}:{b(op[4])}"
+    if k == "convert":
+        return f"convert:{sh_key(ret, op[1])}:{b(op[2])}"
+    raise fw.HarnessError("cannot encode " + repr(op))
+
+
+def _key(ret, s):
+    if s.startswith("#"):
+        k = ret[int(s[1:])]
+        if k is None:
+            raise fw.HarnessError("reference to an operation that returned no key: " + s)
+        return k
+    return s
+
+
+def _keys(ret, s):
+    return [] if s == "n" else [_key(ret, x) for x in s.split("+")]
+
+
+def _optkeys(ret, s):
+    return None if s == "_" else _keys(ret, s)
+
+
+def _shape(s):
+    if s == "_":
+        return None
+    if s == "s":
+        return ()
+    return tuple(int(x) for x in s.split("x"))
+
+
+def dec_con(ret, s):
+    t, k, d, b, g, r, sz, cmx, co, an = s.split("/")
+    c = blank(data=_shape(d), bounds=_shape(b), geom=g == "1", ring=_shape(r), size=None if sz == "_" else int(sz),
+              cmaxes=[] if cmx == "n" else [x[1:] if x.startswith("~") else _key(ret, x) for x in cmx.split("+")],
+              coords=_keys(ret, co),
+              ancils=[] if an == "n" else [None if x == "~" else _key(ret, x) for x in an.split("+")])
+    return t, c
+
+
+def dec_op(s, ret, types=None):
+    p = s.split(":")
+    k = p[0]
+    idx = lambda x: None if x == "_" else ([] if x == "n" else [int(i) for i in x.split("+")])
+    if k == "setc":
+        t, c = dec_con(ret, p[2])
+        return ("setc", p[1], t, c, None if p[3] == "_" else _key(ret, p[3]), _optkeys(ret, p[4]))
+    if k == "delc":
+        return ("delc", p[1], _key(ret, p[2]))
+    if k == "setd":
+        return ("setd", _shape(p[1]), _optkeys(ret, p[2]))
+    if k in ("deld", "delda"):
+        return (k,)
+    if k == "setda":
+        return ("setda", _keys(ret, p[1]))
+    if k == "setdak":
+        return ("setdak", p[1], _keys(ret, p[2]), _key(ret, p[3]))
+    if k == "deldak":
+        return ("deldak", p[1], _key(ret, p[2]))
+    if k == "replace":
+        t, c = dec_con(ret, p[2])
+        return ("replace", _key(ret, p[1]), t, c, _optkeys(ret, p[3]))
+    if k == "copy":
+        return ("copy", 0)
+    if k == "sub":
+        return ("sub", [] if p[1] == "n" else [tuple(int(x) for x in q.split("-")) for q in p[1].split("+")])
+    if k == "squeeze":
+        return ("squeeze", idx(p[1]), p[2] == "1")
+    if k == "transpose":
+        return ("transpose", idx(p[1]), p[2] == "1", p[3] == "1")
+    if k == "insdim":
+        return ("insdim", None if p[1] == "_" else _key(ret, p[1]), int(p[2]), p[3] == "1", p[4] == "1")
+    if k == "convert":
+        return ("convert", _key(ret, p[1]), p[2] == "1")
+    raise fw.HarnessError("cannot decode " + s)
+
+
+# ------------------------------------------------------------------ generator of one op from the abstract state
 def gen_op(rng, st, bad_p=0.25):
-    """Generate one op from the abstract state (so that most ops are valid)."""
-    axes, cons, data, cms, refs = st
-    akeys = sorted(axes)
-    sized = [k for k in akeys if axes[k] is not None]
+    cons, types, axes, data, daxes = st["cons"], st["types"], st["axes"], st["data"], st["daxes"]
+    akeys = sorted(k for (t, k) in cons if t == "axis")
+    size = {k: cons[("axis", k)]["size"] for k in akeys}
+    sized = [k for k in akeys if size[k] is not None]
+    arr = sorted(k for (t, k) in cons if t in ARRAY)
+    tof = {k: t for (t, k) in cons}
+    cms = sorted(k for (t, k) in cons if t == "cm")
+    refs = sorted(k for (t, k) in cons if t == "ref")
     bad = rng.random() < bad_p
+    via = "d" if rng.random() < 0.25 else "f"
     r = rng.random()
 
     def pick_axes(nmax=3):
-        n = rng.randint(0 if rng.random() < 0.1 else 1, min(nmax, len(sized))) if sized else 0
+        if not sized:
+            return []
+        n = rng.randint(0 if rng.random() < 0.1 else 1, min(nmax, len(sized)))
         return rng.sample(sized, n)
 
-    def next_key(t):
-        return None
+    def arr_con(t, shape):
+        c = blank(data=None if shape is None else tuple(shape))
+        if shape is not None and t in ("dim", "aux", "dan") and rng.random() < 0.35:
+            if t == "aux" and len(shape) == 1 and rng.random() < 0.3:
+                c["geom"] = True
+                c["bounds"] = tuple(shape) + (2, 3)
+                if rng.random() < 0.6:
+                    c["ring"] = tuple(shape) + (2,)
+            else:
+                c["bounds"] = tuple(shape) + (rng.choice([2, 4]),)
+            if rng.random() < 0.25:
+                c["data"] = None  # bounds only
+        return c
 
     if r < 0.30 or not akeys:
         t = rng.choice(["axis", "axis", "dim", "aux", "aux", "msr", "fan", "dan", "cm", "ref"])
         if t == "axis" or not sized:
             key = None
-            if bad and akeys and rng.random() < 0.5:
+            q = rng.random()
+            if bad and akeys and q < 0.45:
                 key = rng.choice(akeys)  # replace an existing axis (possibly changing its size)
-            elif bad and cons and rng.random() < 0.5:
-                key = rng.choice(sorted(cons))  # key of another type
-            return ("setc", "axis", rng.randint(1, 4), key, None)
+                n = rng.choice([size[key]] * 5 + [rng.randint(1, 4)]) if size[key] else rng.randint(1, 4)
+                return ("setc", via, "axis", blank(size=n), key, None)
+            if bad and arr and q < 0.6:
+                key = rng.choice(arr)  # key of another type
+            elif bad and q < 0.7:
+                key = f"foo{rng.randint(0, 2)}"
+            elif bad and q < 0.8:
+                return ("setc", via, "axis", blank(size=None), None, None)  # an axis without size
+            return ("setc", via, "axis", blank(size=rng.randint(1, 4)), key, None)
         if t == "cm":
             ax = pick_axes(2)
-            if bad and rng.random() < 0.5:
-                ax = ["domainaxis99"]
-            key = rng.choice(sorted(cms)) if cms and rng.random() < 0.2 else None
-            return ("setc", "cm", None, key, ax)
+            if rng.random() < 0.2:
+                ax = ax + [rng.choice(["area", "time"])]
+            if bad and rng.random() < 0.12:
+                ax = ax + [f"domainaxis{rng.choice([9, 99])}"]
+            key = rng.choice(cms) if cms and rng.random() < 0.2 else None
+            return ("setc", via, "cm", blank(cmaxes=ax), key, ["domainaxis0"] if bad and rng.random() < 0.1 else None)
         if t == "ref":
-            coords = [k for k, (tt, _, _) in cons.items() if tt in ("dim", "aux")]
-            dans = [k for k, (tt, _, _) in cons.items() if tt == "dan"]
-            co = rng.sample(sorted(coords), min(len(coords), rng.randint(0, 2)))
-            an = rng.sample(sorted(dans), min(len(dans), rng.randint(0, 2)))
-            key = rng.choice(sorted(refs)) if refs and rng.random() < 0.2 else None
-            return ("setc", "ref", (co, an), key, None)
+            coords = sorted(k for (tt, k) in cons if tt in ("dim", "aux"))
+            dans = sorted(k for (tt, k) in cons if tt == "dan")
+            co = rng.sample(coords, min(len(coords), rng.randint(0, 2)))
+            an = rng.sample(dans, min(len(dans), rng.randint(0, 2)))
+            if rng.random() < 0.15:
+                an = an + [None]
+            if bad and rng.random() < 0.1:
+                co = co + [rng.choice(["auxiliarycoordinate99"] + sorted(k for (tt, k) in cons if tt in ("msr", "axis")))]
+            if bad and rng.random() < 0.05:
+                an = an + ["domainancillary99"]
+            key = rng.choice(refs) if refs and rng.random() < 0.2 else None
+            return ("setc", via, "ref", blank(coords=co, ancils=an), key, None)
         ax = pick_axes(1 if t == "dim" else 3)
-        shape = [axes[a] for a in ax]
+        shape = [size[a] for a in ax]
         key = None
-        same = sorted(k for k, (tt, _, _) in cons.items() if tt == t)
+        same = sorted(k for (tt, k) in cons if tt == t)
         if same and rng.random() < 0.2:
             key = rng.choice(same)
+        elif rng.random() < 0.06:
+            # an identifier of the standard form of ANOTHER type (legal; later automatic identifiers must avoid it)
+            ot = rng.choice(["axis", "aux", "dim", "cm", "msr"])
+            key = f"{BASE[ot]}{sum(1 for (tt, _) in cons if tt == ot) + rng.randint(0, 1)}"
         aa = list(ax)
         if bad:
             q = rng.random()
-            if q < 0.3 and shape:
+            if q < 0.25 and shape:
                 shape[rng.randrange(len(shape))] += 1  # wrong shape
-            elif q < 0.5:
-                aa = aa + ["domainaxis77"]  # unknown axis
+            elif q < 0.4:
+                aa = aa + [f"domainaxis{rng.choice([7, 77])}"]  # unknown axis
                 shape = shape + [2]
-            elif q < 0.7:
-                aa = None  # no axes given
-            elif q < 0.85:
-                other = sorted(k for k, (tt, _, _) in cons.items() if tt != t) + akeys
+            elif q < 0.65:
+                aa = None  # no axes given (with an existing key: the recorded axes are kept)
+                if key is not None and rng.random() < 0.5 and shape:
+                    shape[rng.randrange(len(shape))] += 1
+            elif q < 0.8:
+                other = sorted(k for k in types if tof.get(k) != t)
                 if other:
                     key = rng.choice(other)  # key of another type
-            else:
+            elif q < 0.9:
                 shape = None  # no data
-        return ("setc", t, shape, key, aa)
-    if r < 0.45:
-        allk = akeys + sorted(cons) + sorted(cms) + sorted(refs)
-        k = rng.choice(allk) if allk and not (bad and rng.random() < 0.3) else "auxiliarycoordinate99"
-        return (rng.choice(["delc", "delc", "ddelc"]), k)
-    if r < 0.55:
+            else:
+                aa = aa[:-1] if aa else aa  # too few axes
+        if t == "dim" and shape is not None and len(shape) != 1:
+            t = "aux"  # cfdm's DimensionCoordinate.set_data accepts 1-d data only
+            if key is not None and tof.get(key) == "dim":
+                key = None
+        return ("setc", via, t, arr_con(t, shape), key, aa)
+    if r < 0.44:
+        allk = sorted(types)
+        k = rng.choice(allk) if allk and not (bad and rng.random() < 0.3) else rng.choice(["auxiliarycoordinate99", "domainaxis99"])
+        return ("delc", via, k)
+    if r < 0.52:
         ax = pick_axes(3)
-        shape = [axes[a] for a in ax]
+        if daxes is not None and rng.random() < 0.4:
+            ax = list(daxes)
+        shape = [size.get(a) or 1 for a in ax]
         aa = list(ax)
+        if rng.random() < 0.3 and daxes is not None:
+            aa = None
+            shape = [size.get(a) or 1 for a in daxes]
         if bad:
             q = rng.random()
             if q < 0.4 and shape:
@@ -294,24 +591,24 @@ def gen_op(rng, st, bad_p=0.25):
             elif q < 0.7:
                 aa = None
             else:
-                aa = aa + ["domainaxis55"]
+                aa = (aa or []) + ["domainaxis55"]
                 shape = shape + [1]
-        return ("setd", shape, aa)
-    if r < 0.58:
+        return ("setd", tuple(shape), aa)
+    if r < 0.55:
         return ("deld",)
-    if r < 0.66:
-        key = rng.choice(sorted(cons)) if cons and rng.random() < 0.5 else None
-        if key is not None and cons[key][1] is not None:
-            shp = cons[key][1]
-        elif key is None and data[0] is not None:
-            shp = data[0]
+    if r < 0.62:
+        if arr and rng.random() < 0.55:
+            key = rng.choice(arr)
+            shp = con_shape(tof[key], cons[(tof[key], key)])
+            if bad and rng.random() < 0.3:
+                key = rng.choice(sorted(types))  # any construct, also one that cannot have data
         else:
-            shp = None
+            key = None
+            shp = data
         if shp is not None and not bad:
-            # a permutation-compatible choice of axes with the right sizes
             ax = []
             for n in shp:
-                cand = [a for a in sized if axes[a] == n and a not in ax]
+                cand = [a for a in sized if size[a] == n and a not in ax]
                 if not cand:
                     break
                 ax.append(rng.choice(cand))
@@ -321,65 +618,89 @@ def gen_op(rng, st, bad_p=0.25):
             ax = pick_axes(3)
             if bad and rng.random() < 0.5:
                 ax = ax + ["domainaxis44"]
-        return ("setda", ax, key)
-    if r < 0.69:
-        key = rng.choice(sorted(cons)) if cons and rng.random() < 0.6 else None
-        return ("delda", key)
-    if r < 0.74:
-        return ("copy",)
-    if r < 0.80 and data[0] is not None and data[1] is not None and len(data[0]) == len(data[1]):
+        if key is None:
+            return ("setda", ax)
+        return ("setdak", via, ax, key)
+    if r < 0.66:
+        if rng.random() < 0.6 and axes:
+            return ("deldak", via, rng.choice(sorted(axes)) if not bad else rng.choice(sorted(types)))
+        return ("delda",)
+    if r < 0.69 and arr:
+        key = rng.choice(arr)
+        t = tof[key]
+        old = cons[(t, key)]
+        shp = con_shape(t, old)
+        if t == "dim" and shp is not None and len(shp) != 1:
+            return ("copy", 0)
+        c = blank(data=shp)
+        ax = None
+        if bad:
+            q = rng.random()
+            if q < 0.15 and shp:
+                c = blank(data=tuple(n + 1 for n in shp))
+            elif q < 0.3:
+                ax = pick_axes(2) + ["domainaxis33"]
+            else:
+                key = "auxiliarycoordinate99"
+        return ("replace", key, t, c, ax)
+    if r < 0.73:
+        return ("copy", rng.randint(0, 1))
+    if r < 0.80 and data is not None and daxes is not None:
         ix = []
-        for n in data[0]:
+        for n in data:
             a = rng.randint(0, max(0, n - 1))
             b = rng.randint(a + (0 if bad and rng.random() < 0.3 else 1), max(a + 1, n))
             ix.append((a, b))
+        if bad and rng.random() < 0.2:
+            ix.append((0, 1))
         return ("sub", ix)
-    if r < 0.85 and data[0] is not None:
-        nd = len(data[0])
-        ones = [i for i, n in enumerate(data[0]) if n == 1]
+    if r < 0.85 and data is not None:
+        nd = len(data)
+        ones = [i for i, n in enumerate(data) if n == 1]
+        ip = rng.random() < 0.3
         if bad and nd:
-            return ("squeeze", [rng.randrange(nd)])
-        return ("squeeze", None if rng.random() < 0.5 or not ones else rng.sample(ones, rng.randint(1, len(ones))))
-    if r < 0.90 and data[0] is not None:
-        nd = len(data[0])
+            return ("squeeze", [rng.randrange(nd + 1)], ip)
+        return ("squeeze", None if rng.random() < 0.5 or not ones else rng.sample(ones, rng.randint(1, len(ones))), ip)
+    if r < 0.90 and data is not None:
+        nd = len(data)
         perm = list(range(nd))
         rng.shuffle(perm)
         if bad and nd > 1:
-            perm = perm[:-1]
-        return ("transpose", None if rng.random() < 0.3 else perm, rng.random() < 0.5)
+            perm = perm[:-1] if rng.random() < 0.5 else perm[:-1] + [perm[0]]
+        cs = rng.random() < 0.5
+        return ("transpose", None if rng.random() < 0.3 else perm, cs, (not cs) and rng.random() < 0.3)
     if r < 0.95:
-        ones = [k for k in sized if axes[k] == 1]
-        ax = rng.choice(ones) if ones and not bad else (rng.choice(sized) if sized else None)
-        nd = len(data[0]) if data[0] is not None else 0
-        return ("insdim", ax, rng.randint(0, nd), rng.random() < 0.5)
-    if cons:
-        return ("convert", rng.choice(sorted(cons)), rng.random() < 0.7)
-    return ("copy",)
+        ones = [k for k in sized if size[k] == 1 and (daxes is None or k not in daxes)]
+        q = rng.random()
+        if q < 0.35:
+            ax = None
+        elif ones and not bad:
+            ax = rng.choice(ones)
+        else:
+            ax = rng.choice(akeys + ["domainaxis66"]) if akeys else None
+        nd = len(data) if data is not None else 0
+        cs = rng.random() < 0.5
+        return ("insdim", ax, rng.randint(0, nd + (1 if bad else 0)), cs, (not cs) and rng.random() < 0.3)
+    if types:
+        return ("convert", rng.choice(arr) if arr and not bad else rng.choice(sorted(types)), rng.random() < 0.7)
+    return ("copy", 0)
 
 
-def enc_op(op):
-    def e(x):
-        if x is None:
-            return "_"
-        if isinstance(x, bool):
-            return "1" if x else "0"
-        if isinstance(x, (list, tuple)):
-            return "(" + "+".join(e(y) for y in x) + ")"
-        return str(x)
-    return op[0] + ":" + ":".join(e(x) for x in op[1:])
-
-
-def start_field(rng, which):
+# ------------------------------------------------------------------ cases
+def start_field(which, hseed):
     C = cfdm()
     if which == "empty":
         return C.Field()
+    if which == "random":
+        from ..gen import fields
+        return fields.random_field(fw.rng_for(hseed, "start"), allow=("dim", "aux", "aux2d", "scalar", "msr", "fan", "cm", "gm", "ft", "bounds", "dan"))
     return C.example_field(int(which))
 
 
 def gen(rng, tier, n):
-    maxlen = 12 if tier == "quick" else 40
+    maxlen = 14 if tier == "quick" else 40
     for _ in range(n):
-        start = rng.choice(["empty", "empty", "empty", "0", "1", "2", "3", "5", "6", "7"])
+        start = rng.choice(["empty", "empty", "empty", "0", "1", "2", "3", "5", "6", "7", "random", "random", "random"])
         yield Case("C02.hist", dict(start=start, hseed=rng.randrange(1 << 40), length=rng.randint(4, maxlen)), None,
                    tags=["start:" + start])
 
@@ -391,56 +712,109 @@ def from_payload(stream, payload):
 def impl(c):
     p = c.payload
     rng = fw.rng_for(p["hseed"], "hist")
-    f = start_field(rng, p["start"])
-    ops = p.get("ops")
-    fixed = ops is not None
-    out = []
-    trace = []
-    fail = None
+    f = start_field(p["start"], p["hseed"])
+    fixed = p.get("ops")
     st = abstract(f)
+    init = sh_state([], st, sort=False)
+    ret = []
+    lines = []
+    done = []
+    fail = None
     accepted = 0
-    n = len(ops) if fixed else p["length"]
-    done_ops = []
+    n = len(fixed) if fixed is not None else p["length"]
+    tags = []
+    before = None
     for i in range(n):
-        op = tuple(ops[i]) if fixed else gen_op(rng, st)
-        op = _tuplify(op)
-        done_ops.append(op)
-        f, res, key = apply_op(f, op)
-        if res == "ok" and op[0] not in ("copy",):
+        if fixed is not None:
+            text = fixed[i]
+            op = dec_op(text, ret)
+        else:
+            op = gen_op(rng, st)
+            text = enc_op(op, ret)
+            op = dec_op(text, ret)
+        before = st
+        f, res, key, exc = apply_op(f, op)
+        ret.append(key)
+        done.append(text)
+        if res == "ok" and op[0] != "copy":
             accepted += 1
+        tags.append(("op:" if res == "ok" else "rej:") + op[0] + (":d" if len(op) > 1 and op[1] == "d" else ""))
         bad = invariant(f)
         try:
             st = abstract(f)
-            s = show_state(st)
+            s = sh_state(ret, st)
         except Exception as e:
             s = "unabstractable:" + type(e).__name__
-            bad = bad or ("state cannot be inspected: " + repr(e)[:100])
-        trace.append(f"{enc_op(op)} -> {res.split(':')[0]} {s}")
-        if bad and fail is None:
-            fail = dict(step=i, op=enc_op(op), result=res, problem=bad)
+            bad = bad or ("the state cannot be inspected: " + repr(e)[:100])
+        lines.append(f"{res}@{'0' if bad else '1'}@{s}")
+        if bad:
+            fail = dict(step=i, op=text, kind=op[0], result=res, exc=exc, problem=bad,
+                        sig=signature(op, res, before, st if isinstance(st, dict) else None, bad))
             break
-    c.payload["ops"] = [list(o) for o in done_ops]
-    c.extra = dict(fail=fail, trace=trace[-6:], accepted=accepted)
+    c.payload["ops"] = done
+    c.line = f"C02.hist init={init} ops={';'.join(done) or '-'}"
+    c.extra = dict(fail=fail, accepted=accepted, last=lines[-3:])
     c.nontrivial = accepted >= 3
-    c.key = p["start"] + "|" + ";".join(enc_op(o) for o in done_ops)
-    for o in done_ops:
-        pass
-    c.tags = tuple(c.tags) + tuple("op:" + o[0] for o in done_ops)
-    return "|".join(t.split(" -> ")[1].split(" ")[0] for t in trace)
+    c.key = p["start"] + "|" + str(p["hseed"] if p["start"] == "random" else "") + "|" + ";".join(done)
+    c.tags = tuple(c.tags) + tuple(tags)
+    return ";;".join(lines)
 
 
-def _tuplify(op):
-    return tuple(tuple(x) if False else x for x in op)
+def _model(c):
+    m = c.model_out or ""
+    out = {}
+    for part in m.split(" "):
+        if "=" in part:
+            k, v = part.split("=", 1)
+            out[k] = v
+    return out
 
 
 def agree(c):
-    return True
+    """implementation trace == trace of the model of the patched container"""
+    m = _model(c)
+    if m.get("I") != "1":
+        return False
+    return c.impl_out == m.get("P")
 
 
 def oracle(c):
-    f = c.extra["fail"]
+    f = c.extra["fail"] if isinstance(c.extra, dict) else None
     if f:
-        return f"after op {f['step']} `{f['op']}` ({f['result']}): {f['problem']}"
+        return f"after op {f['step']} `{f['op']}` ({f['result']}{'' if not f['exc'] else ':' + f['exc']}): {f['problem']}"
+    return None
+
+
+# ------------------------------------------------------------------ known findings
+def signature(op, res, st, after, problem):
+    """Signature of a failing operation, from the operation and the states before and after it."""
+    cons, types, axes, data, daxes = st["cons"], st["types"], st["axes"], st["data"], st["daxes"]
+    kind = op[0]
+    if res != "ok":
+        return None
+    twice = after is not None and len({k for (_, k) in after["cons"]}) < len(after["cons"])
+    if twice and ((kind == "setc" and op[4] is None) or (kind == "insdim" and op[1] is None)):
+        return "new_identifier-returns-key-of-another-type"
+    if kind == "setc":
+        _, via, t, c, key, ax = op
+        if t == "axis" and key is not None and ("axis", key) in cons and cons[("axis", key)]["size"] != c["size"]:
+            spanned = any(key in l for l in axes.values()) or (daxes is not None and key in daxes)
+            if spanned:
+                return "set_construct-domain-axis-of-other-size-while-spanned"
+        if t in ARRAY and key is not None and ax is None and key in axes and (t, key) in cons:
+            return "set_construct-existing-key-keeps-axes-of-other-shape"
+        if t == "cm" and "cell method" in problem:
+            return "set_construct-cell-method-naming-missing-domain-axis"
+        if t == "ref" and "coordinate reference" in problem:
+            return "set_construct-coordinate-reference-naming-missing-construct"
+    if kind == "delc" and op[1] == "d" and ("axis", op[2]) in cons:
+        return "domain-view-del_construct-of-axis-in-use-by-field"
+    if kind == "setda" and data is None and any(("axis", a) not in cons for a in op[1]):
+        return "set_data_axes-unknown-axis-on-field-without-data"
+    if kind == "insdim" and op[3] and "dimension coordinate" in problem and "-d data" in problem:
+        return "insert_dimension-constructs-makes-dimension-coordinates-2d"
+    if kind == "replace":
+        return "constructs.replace-unchecked"
     return None
 
 
@@ -448,37 +822,69 @@ def classify(c):
     f = c.extra.get("fail") if isinstance(c.extra, dict) else None
     if not f:
         return None
-    op = f["op"]
-    prob = f["problem"]
-    if op.startswith("setc:axis:") and "shape" in prob and f["result"] == "ok":
-        return "replace-domain-axis-with-other-size-while-spanned"
-    if (op.startswith("setc:") or op.startswith("dsetc:")) and "two construct types" in prob:
-        return "set_construct-with-key-of-another-type"
-    if op.startswith("ddelc:") and ("non-existent" in prob or "raised" in prob):
-        return "domain-view-del_construct-of-axis-in-use-by-field"
-    if op.startswith("delc:domainaxis") and ("field data spans" in prob or "raised" in prob):
-        return "Field.del_construct-of-axis-spanned-by-field-data"
-    return None
+    if not f.get("sig"):
+        # not a listed finding: group the violations of one run by kind of call and kind of damage
+        return "unlisted:" + f["kind"] + ":" + re.sub(r"[a-z]+[0-9]+|[0-9]+|\(.*?\)", "#", f["problem"])[:60].strip().replace(" ", "-")
+    # a known finding is only recognised when the whole observed trace is what the model of the container
+    # AS CODED produces for this history (so any other deviation is still reported)
+    m = _model(c)
+    if c.model_out is not None and _noinv(c.impl_out) != _noinv(m.get("O")) and c.impl_out != m.get("P"):
+        return None
+    return f["sig"]
+
+
+def _noinv(trace):
+    """the trace without the invariant flags (the model of the code as it is also tracks the private copy
+    `Constructs._field_data_axes`, which `Field.del_data_axes()` leaves stale and the oracle cannot see)"""
+    return None if trace is None else re.sub(r"(ok|rej)@[01]@", r"\1@", trace)
 
 
 def shrink(c, run):
-    """Greedy removal of ops that keeps the same failure signature."""
-    sig = classify(c)
-    ops = [list(o) for o in c.payload["ops"]]
-    best = c
-    i = 0
-    budget = 60
-    while i < len(ops) - 1 and budget > 0:
-        budget -= 1
-        trial = ops[:i] + ops[i + 1:]
+    """Replace operations by no-ops (copy) while the failure keeps its signature, then drop the no-ops."""
+    sig = (c.extra.get("fail") or {}).get("sig") if isinstance(c.extra, dict) else None
+    prob = (c.extra.get("fail") or {}).get("problem") if isinstance(c.extra, dict) else None
+    ops = list(c.payload["ops"])
+
+    def attempt(trial):
         p = dict(c.payload)
         p["ops"] = trial
         c2 = Case("C02.hist", p, None)
-        c2.impl_out = impl(c2)
+        try:
+            c2.impl_out = impl(c2)
+        except Exception:
+            return None
         c2.oracle_fail = oracle(c2)
-        if c2.oracle_fail and classify(c2) == sig:
-            ops = [list(o) for o in c2.payload["ops"]]
+        f2 = c2.extra.get("fail")
+        if c2.oracle_fail and f2 and f2.get("sig") == sig and (sig or f2.get("problem", "")[:25] == (prob or "")[:25]):
+            return c2
+        return None
+
+    best = c
+    budget = 80
+    for i in range(len(ops) - 1):
+        if budget <= 0:
+            break
+        if ops[i] == "copy":
+            continue
+        budget -= 1
+        trial = ops[:i] + ["copy"] + ops[i + 1:]
+        c2 = attempt(trial)
+        if c2 is not None:
+            ops = list(c2.payload["ops"])
             best = c2
-        else:
-            i += 1
+    # drop the no-ops, renumbering the #i references
+    keep = [i for i, o in enumerate(ops) if o != "copy"]
+    remap = {old: new for new, old in enumerate(keep)}
+    try:
+        compact = [re.sub(r"#(\d+)", lambda m: "#" + str(remap[int(m.group(1))]), ops[i]) for i in keep]
+        c3 = attempt(compact)
+        if c3 is not None:
+            best = c3
+    except KeyError:
+        pass
+    if best is not c and run is not None and best.line:
+        try:
+            best.model_out = fw.model_run([best.line])[0]
+        except Exception:
+            pass
     return best
